@@ -51,6 +51,9 @@ KANI = dict(
 )
 
 CONFIRM = {}
+# helper functions under Verus contract that no Kani harness names directly -> the functions whose harnesses exercise them
+KANI_CALLERS = dict(check_collision=['handle_incoming_puback', 'handle_incoming_pubrec', 'handle_incoming_pubcomp'], save_pubrel=['outgoing_pubrel'],
+                    handle_protocol_error=['handle_incoming_publish'], new=['next_pkid'])
 
 NATIVE = dict(
     rumqttc=dict(modules=[('src/state.rs', 'state_v4.rs', 'verif_native'),
